@@ -596,7 +596,7 @@ def p_error(prop, c):
 
 def check_C10(tier, seed, replay):
     res, runs, cases = generic(
-        "C10", ["ops", "fields", "memo", "lr", "user", "inc", "rand"], tier, seed, replay, [p_error],
+        "C10", ["ops", "fields", "memo", "lr", "user", "inc", "rand", "big"], tier, seed, replay, [p_error],
         "all failing inputs of the operator, memo, left-recursion and user-function families (every template's error "
         "bookkeeping: optional, closure end, failed alternative, lookaheads, @char classes, check failures, externs); "
         "non-trivial = failing parse with failed attempts at two or more distinct offsets",
@@ -754,7 +754,7 @@ def p_tracing(prop, c):
 
 def check_C19(tier, seed, replay):
     res, runs, cases = generic(
-        "C19", ["ops", "memo", "lr", "user", "uni", "rand", "names"], tier, seed, replay, [p_tracing],
+        "C19", ["ops", "memo", "lr", "user", "uni", "rand", "names", "big"], tier, seed, replay, [p_tracing],
         "operator, memo (cache hits), left-recursion (re-evaluation) and user-function (failing checks, externs) "
         "families x all inputs up to the bound, each parsed plainly, with a recording ParseTracer and with the "
         "library's IndentedTracer; non-trivial = at least two rule entries",
@@ -1705,7 +1705,9 @@ def check_C16(tier, seed, replay):
     os.makedirs(tdir, exist_ok=True)
     k = 3 if tier == "quick" else 12
     settings = [("default", None), ("full", ["Debug", "Clone", "PartialEq", "Eq"]), ("clone", ["Clone"]),
-                ("ctx", ["Debug", "Clone"])]          # with a user context type (library and build script only)
+                ("dups", ["Debug", "Clone", "Clone", "Debug"]), ("paths", ["Clone", "std::fmt::Debug", "core::cmp::PartialEq"]),
+                ("ctx", ["Debug", "Clone"]),          # with a user context type (library and build script only)
+                ("ctxpath", ["Debug", "Clone"])]      # ... given as a longer path with a keyword segment
     prefixes = ["", "use std::fmt::Debug as _;", "// p\n// q"]
     jobs = []
     for g in gs:
@@ -1715,9 +1717,10 @@ def check_C16(tier, seed, replay):
         for sname, dv in settings:
             dvs = "-" if dv is None else ",".join(dv)
             for proc in range(k):
-                cenv = {"VERIF_CTX": "crate::TheContext", "VERIF_CTX_ORDER": "first" if proc % 2 == 0 else "last"} if sname == "ctx" else None
+                cenv = ({"VERIF_CTX": "crate::TheContext" if sname == "ctx" else "super::ctx::r#type::deep_module::The_Context2",
+                         "VERIF_CTX_ORDER": "first" if proc % 2 == 0 else "last"} if sname in ("ctx", "ctxpath") else None)
                 jobs.append(("lib", g.id, sname, proc, [front, "lib", pth, dvs, os.path.join(tdir, "%s.%s.lib%d.rs" % (g.id, sname, proc))], None, text, cenv))
-                if sname != "ctx":
+                if sname not in ("ctx", "ctxpath"):
                     cmd = [cli] + [x for d_ in (dv or []) for x in ("-d", d_)] + [pth]
                     jobs.append(("cli", g.id, sname, proc, cmd, None, text, None))
                 pf = prefixes[proc % len(prefixes)]
